@@ -23,9 +23,14 @@ def fuzz(rng):
     p_lo = np.array([c["p_lo1"], c["p_lo2"], c["p_lo3"], c["p_lo4"]], dtype=float)
     fsh = np.array([c["fshape_w1"], c["fshape_w2"], c["fshape_w3"], c["fshape_w4"]], dtype=float)
     taw = float(rng.choice([20., 80., 150., 300.]))
-    dr = float(rng.uniform(-0.2, 1.2) * taw) if rng.random() < 0.8 else float(rng.choice([0, taw, p_up[1] * taw]))
+    u = rng.random()
+    if u < 0.65:
+        dr = float(rng.uniform(-0.2, 1.2) * taw)
+    else:   # exact edges: no depletion, full depletion, exactly on a threshold
+        dr = float(rng.choice([0.0, taw, p_up[0] * taw, p_up[1] * taw, p_lo[1] * taw, p_lo[2] * taw]))
+    et0 = float(rng.uniform(0.1, 20)) if rng.random() < 0.7 else float(rng.choice([0.1, 5.0, 17.5, 20.0]))
     return (p_up, p_lo, int(rng.random() < 0.8), 12.0, fsh, float(rng.choice([0, 0, 3])), dr, taw,
-            float(rng.uniform(0.1, 20)), bool(rng.random() < 0.7))
+            et0, bool(rng.random() < 0.7))
 
 
 from aquacrop.solution.water_stress import water_stress as FUNC  # noqa: E402
